@@ -566,6 +566,11 @@ let cmd_mkreq (arg : string) : string =
 
 let model_srv : server option ref = ref None
 
+(* "sock:len" strings ordered by socket index (the harness drains its sockets in index order) *)
+let compare_dest (a : string) (b : string) : int =
+  let k s = int_of_string (String.sub s 0 (String.index s ':')) in
+  compare (k a) (k b)
+
 let stats_totals (evs : sev list) : string =
   let rfc = ref 0 and classic = ref 0 and invalid = ref 0 and health = ref 0 and failed = ref 0
   and retried = ref 0 and rfcresp = ref 0 and classicresp = ref 0 and bytes = ref 0 in
@@ -592,7 +597,7 @@ let cmd_serve (arg : string) : string =
        let lt = bytes_of_hex seed in
        let dummy_pk s = match real_pk with Some pk when s = lt -> pk | _ -> dummy_pk s in
        let cfg = { batch_size = nat_of_int (int_of_string batch); fault_pct = n_of_string fault;
-                   log_level = nat_of_int (int_of_string level) } in
+                   log_level = nat_of_int (int_of_string level); send_fails = (fun _ -> false) } in
        (match server_new sha512 dummy_pk dummy_sign cfg (bytes_of_hex seed)
                 (bytes_of_string "online-ietf") (bytes_of_string "online-classic") with
         | Ok s -> model_srv := Some s;
@@ -622,6 +627,42 @@ let cmd_serve (arg : string) : string =
   | "drop" -> model_srv := None; "OK"
   | _ -> "SKIP"
 
+(* respond <ver> <seedhex> <nsock> <batch>|<batch>...   item = <dest>:<nonce>:<request|->
+   destinations F and B are addresses the environment refuses to send to (send_fails) *)
+let cmd_respond (arg : string) : string =
+  match String.split_on_char ' ' (String.trim arg) with
+  | [v; seed; _nsock; batches] ->
+    let ver = version_of v in
+    let addr_of d = match d with "F" -> 1000000 | "B" -> 1000001 | k -> int_of_string k in
+    let cfg = { batch_size = nat_of_int 64; fault_pct = N0; log_level = nat_of_int 0;
+                send_fails = (fun a -> int_of_n a >= 1000000) } in
+    (match responder_new dummy_pk dummy_sign ver (bytes_of_hex seed) (bytes_of_string "online") with
+     | Ok r0 ->
+       let r = ref r0 and evs = ref [] and out = ref [] and failed = ref false in
+       List.iter (fun batch ->
+           if not !failed then begin
+             r := responder_reset !r;
+             List.iter (fun item ->
+                 match String.split_on_char ':' item with
+                 | [d; n; rq] ->
+                   let nonce = bytes_of_hex n in
+                   let leaf = if rq = "-" then nonce else bytes_of_hex rq in
+                   (match responder_add sha512 !r leaf nonce (n_of_int (addr_of d)) with
+                    | Ok r' -> r := r'
+                    | _ -> failed := true)
+                 | _ -> failwith "respond item") (split_on ';' batch);
+             (match send_responses sha512 dummy_sign cfg !r (N0, N0) [] with
+              | Ok (r', bo) ->
+                r := r'; evs := !evs @ bo.bo_stats;
+                let got = List.map (fun e -> Printf.sprintf "%d:%d" (int_of_n e.em_dest) (List.length e.em_bytes)) bo.bo_sent in
+                let got = List.sort compare_dest got in
+                out := Printf.sprintf "[%s R=%s]" (stats_totals !evs) (String.concat "," got) :: !out
+              | _ -> failed := true)
+           end) (String.split_on_char '|' batches);
+       if !failed then "PANIC" else "OK " ^ String.concat " " (List.rev !out)
+     | _ -> "PANIC")
+  | _ -> failwith "respond args"
+
 let dispatch (line : string) : string =
   let cmd, rest =
     match String.index_opt line ' ' with
@@ -638,6 +679,7 @@ let dispatch (line : string) : string =
   | "classify" -> cmd_classify rest
   | "srep" -> cmd_srep rest
   | "serve" -> cmd_serve rest
+  | "respond" -> cmd_respond rest
   | "signer" -> cmd_signer rest
   | "cfgvalid" -> cmd_cfgvalid rest
   | "client" -> cmd_client rest
